@@ -23,6 +23,7 @@ ASSUMPTIONS = ['an emptied root is exempt from the remove-this-key comparison (t
 TIERS = {'quick': {'cases': 1500, 'budget': 60}, 'thorough': {'cases': 60000, 'budget': 900}}
 
 POOL = ['a', 'b', 'c', 'd', '_u', 'k1']
+HOSTILE = ['exp-1', 'a.b', 'x y', 'b[0]']          # keys that are not identifier-like (paths through them must not be re-parsed)
 
 
 def _map_paths(doc, fn):
@@ -57,8 +58,19 @@ def rename(doc, perm):
 def gen_case(rng, tier):
     n = rng.choice([2, 2, 3, 3, 4, 5])
     docs = gen.rand_merge_sequence(rng, n, depth=rng.choice([2, 3, 4]), flags_p=rng.choice([0.15, 0.3, 0.5]),
-                                   specials_p=rng.choice([0, 0.15, 0.3]), pool_s=POOL, hostile=False,
+                                   specials_p=rng.choice([0, 0.15, 0.3]), pool_s=POOL + (HOSTILE if rng.random() < 0.4 else []), hostile=False,
                                    marker=gen.Marker(), kinds=('s', 's', 's', 's', 'i'))
+    if rng.random() < 0.3 and len(docs) >= 2:
+        # premerge operators aimed two (or three) levels below a top-level key that is or is not identifier-like
+        from ..emit import SP, L, S
+        hk = rng.choice(HOSTILE + ['plain'])
+        depth2 = rng.random() < 0.7
+        old = L([S(1), S(2)])
+        op = SP(rng.choice(['append', 'extend']), args=L([S(3)]))
+        docs[0]['items'].append([hk, M([['steps', old]]) if depth2 else M([['sub', M([['steps', old]])]])])
+        docs[1]['items'].append([hk, M([['steps', op]]) if depth2 else M([['sub', M([['steps', op]])]])])
+        if hk == 'a.b' and rng.random() < 0.5 and 'a' not in [k for k, _ in docs[0]['items']]:
+            docs[0]['items'].append(['a', M([['b', M([['steps', L([S(77)])]])]])])
     prefix = [rng.choice(POOL + ['w']) for _ in range(rng.choice([1, 1, 2, 3]))]
     perm_keys = POOL[:]
     rng.shuffle(perm_keys)
